@@ -55,6 +55,10 @@ def gen_content(rng, max_images=8, unique=True):
         # a whole manifest of names that differ ONLY in one non-ASCII character (same length, same position)
         for i, img in enumerate(K["imgs"]):
             img["path"] = "Server/iso/Fedora-%sdition%s.iso" % ("\u00e9\u00fc\u00f6\u00e0\u00f1\u4e2d\u00e7\u00e5"[i % 8], "" if i < 8 else str(i // 8))
+    elif rng.random() < 0.1:
+        # the same FILE NAME in different directories (spins): only the directory part tells the paths apart
+        for i, img in enumerate(K["imgs"]):
+            img["path"] = "Spins/%s/%s/images/boot.iso" % (img["arch"], ["KDE", "Xfce", "LXDE", "MATE", "SoaS", "Cinnamon"][i % 6] + ("" if i < 6 else str(i // 6)))
     # the same content under a second name (hard link / copy): equal identity AND equal checksums, other path/mtime/size
     for i in range(len(K["imgs"])):
         if rng.random() < 0.15:
